@@ -49,7 +49,7 @@ func pathGuardsTo(w *World, info *types.Info, root ast.Node, node ast.Node) ([]p
 				if ast.Node(st) == child {
 					break
 				}
-				if is, ok := st.(*ast.IfStmt); ok && is.Else == nil && is.Init == nil && len(is.Body.List) > 0 && isTerminating(info, is.Body.List[len(is.Body.List)-1]) {
+				if is, ok := st.(*ast.IfStmt); ok && is.Else == nil && len(is.Body.List) > 0 && isTerminating(info, is.Body.List[len(is.Body.List)-1]) {
 					guards = append(guards, pathGuard{cond: is.Cond, holds: false})
 				}
 			}
@@ -62,7 +62,7 @@ func pathGuardsTo(w *World, info *types.Info, root ast.Node, node ast.Node) ([]p
 				if ast.Node(st) == child {
 					break
 				}
-				if is, ok := st.(*ast.IfStmt); ok && is.Else == nil && is.Init == nil && len(is.Body.List) > 0 && isTerminating(info, is.Body.List[len(is.Body.List)-1]) {
+				if is, ok := st.(*ast.IfStmt); ok && is.Else == nil && len(is.Body.List) > 0 && isTerminating(info, is.Body.List[len(is.Body.List)-1]) {
 					guards = append(guards, pathGuard{cond: is.Cond, holds: false})
 				}
 			}
